@@ -73,7 +73,10 @@ RowName(n) ==
     ELSE IF JarSpecSig(n) THEN "sigblock-unfiltered"
     ELSE IF CodeSigFilter(n) THEN "nested-sf"
     ELSE IF StartsWith(n, "META-INF/") THEN "metainf-other"
-    ELSE IF KindOfName(n) = "class" THEN (IF BundledLib(n) THEN "libclass" ELSE "class")
+    ELSE IF KindOfName(n) = "class"
+    THEN (IF BundledLib(n) THEN "libclass" ELSE IF Contains(n, "/") THEN "class" ELSE "class-default-package")
+    ELSE IF KindOfName(n) = "other"
+    THEN (IF EndsWith(n, ".SF") THEN "sf-outside-metainf" ELSE IF StartsWith(n, "com/lib/") THEN "lib-resource" ELSE "other")
     ELSE KindOfName(n)
 RowComb(n) ==
     IF Comb(n, C, S) # "Both" THEN Comb(n, C, S)
